@@ -315,6 +315,12 @@ func TestCheck(t *testing.T) {
 			}
 		}
 	}
+	for _, proto := range []string{"h1", "h2"} {
+		for _, code := range []int{100, 101, 199, 200, 204, 304, 418, 599, 600, 799, 999} {
+			cases = append(cases, faults.Case{Kind: "odd-backend", Proto: proto, K: code, Val: 0})
+		}
+		cases = append(cases, faults.Case{Kind: "odd-backend", Proto: proto, K: 200, Val: 1})
+	}
 	for _, k := range []int{1, 9, 20, 60} {
 		cases = append(cases, faults.Case{Kind: "abort-many", Proto: "h2", K: k, Val: 0}, faults.Case{Kind: "abort-many", Proto: "h2", K: k, Val: 1})
 	}
